@@ -85,6 +85,7 @@ def setup(rep, tier):
     rep.minimum('R11.5', 6)
     rep.minimum('R11.6', 10)
     rep.minimum('R11.7', 20)
+    rep.minimum('R11.8', 12)
     rep.trusted.append('spec/ctl_ranges.json (hand transcription of include/opus_defines.h)')
 
 
@@ -547,6 +548,158 @@ def r11_7(rep, prog, arms_by_disp):
     return settings
 
 
+# ------------------------------------------------------------ R11.8
+
+BW_MIN = 1101     # OPUS_BANDWIDTH_NARROWBAND, the smallest enumerator
+
+
+def _is_bw(e):
+    e = sx.strip(e)
+    return sx.kind(e) == 'field' and e[2] == 'OpusEncoder' and e[3] == 'bandwidth'
+
+
+def _chain_head(cf, b):
+    """first block of the `X && Y` chain whose last condition block is b"""
+    while True:
+        ps = cf.pred[b]
+        if len(ps) != 1:
+            return b
+        p = ps[0]
+        es = cf.edges(p)
+        if len(es) != 2 or es[0][1] is None or cf.blocks[b]['stmts']:
+            return b
+        tgt_true = [s for s, pol in es if pol is True]
+        tgt_false = [s for s, pol in es if pol is False]
+        bf = [s for s, pol in cf.edges(b) if pol is False]
+        if tgt_true == [b] and tgt_false and bf and tgt_false[0] == bf[0]:
+            b = p
+        else:
+            return b
+
+
+def r11_8(rep, prog):
+    """bandwidth clamp chain of opus_encode_native: every path to the frame
+    encoder passes the max-bandwidth cap and the four Nyquist caps, and every
+    assignment to st->bandwidth after the cap is a lowering, the forced user
+    bandwidth, or the documented CELT medium->wide exception"""
+    f = prog.fn('opus_encode_native')
+    rep.functions.add(f.name)
+    cf = cfgm.CFG(f)
+    sinks = {b for b, i, n in T.calls_to(cf, 'opus_encode_frame_native')}
+    if not sinks:
+        rep.unresolved('R11.8', 'no call to opus_encode_frame_native in opus_encode_native')
+        return
+    # assignments to st->bandwidth with the atoms controlling them
+    asg = []
+    for b, i, n in cf.find(lambda n: n[0] == 'assign' and _is_bw(n[1])):
+        asg.append((b, i, n))
+    caps = {}
+    for b, i, n in asg:
+        atoms = [a for a, gb in guards.facts_at(cf, b)]
+        rhs = sx.strip(n[2])
+        for (a, gb) in guards.facts_at(cf, b):
+            op, l, r = a
+            if op == '<' and r == sx.key(sx.strip(n[1])) and l == guards._okey(rhs):
+                # `if (bandwidth > X) bandwidth = X`
+                name = 'max_bandwidth' if (sx.kind(rhs) == 'field' and rhs[3] == 'max_bandwidth') else (sx.int_val(rhs))
+                if name is not None:
+                    caps[name] = (gb, b, n)
+    want = ['max_bandwidth', 1104, 1103, 1102, 1101]
+    for w in want:
+        inst = '%s:every encoded frame passes the cap `bandwidth > %s -> %s`' % (prog.config, w, w)
+        if w not in caps:
+            rep.violated('R11.8', inst, f.where(), 'no `if (st->bandwidth > X) st->bandwidth = X` with X=%s found in opus_encode_native' % w, key='cap-missing:%s' % w)
+            continue
+        gb, b, n = caps[w]
+        head = _chain_head(cf, gb)
+        where = '%s:%s' % (f.file, sx.line(n))
+        if cf.must_pass(cf.entry, sinks, {head}):
+            rep.holds('R11.8', inst, where, 'the cap test (block %d) is on every path from entry to the %d frame-encoder call sites' % (head, len(sinks)))
+        else:
+            rep.violated('R11.8', inst, where, 'some path reaches opus_encode_frame_native without evaluating this cap (it is nested under another condition)', key='cap-bypass:%s' % w)
+    if 'max_bandwidth' not in caps:
+        return
+    capb = caps['max_bandwidth'][1]
+    after = cf.reachable_from(caps['max_bandwidth'][0])
+    n_after = 0
+    for b, i, n in asg:
+        if b == capb or b not in after or not ((cf.reachable_from(b) | {b}) & sinks):
+            continue
+        n_after += 1
+        rhs = sx.strip(n[2])
+        atoms = [a for a, gb in guards.facts_at(cf, b)]
+        where = '%s:%s' % (f.file, sx.line(n))
+        inst = '%s:`%s` after the max-bandwidth cap cannot raise the bandwidth' % (prog.config, sx.show(n)[:60])
+        why = None
+        mm = T_minmax(rhs)
+        if mm and mm[0] == 'min' and (_is_bw(mm[1]) or _is_bw(mm[2])):
+            why = 'IMIN(st->bandwidth, .) lowers'
+        elif sx.int_val(rhs) == BW_MIN:
+            why = 'narrowband is the smallest bandwidth'
+        elif sx.int_val(rhs) is not None and any(a == ('<', ('int', sx.int_val(rhs)), sx.key(sx.strip(n[1]))) for a in atoms):
+            why = 'guarded by bandwidth > %d' % sx.int_val(rhs)
+        elif sx.kind(rhs) == 'field' and rhs[3] == 'user_bandwidth':
+            why = 'forced bandwidth (documented override; range-checked by its SET arm)'
+        elif sx.int_val(rhs) == 1103 and any(a == ('==', sx.key(sx.strip(n[1])), ('int', 1102)) for a in atoms) \
+                and any(a[0] == '==' and a[2] == ('int', 1002) for a in atoms):
+            why = 'documented exception: the MDCT layer has no medium band and codes it as wideband'
+        if why:
+            rep.holds('R11.8', inst, where, why)
+        else:
+            rep.violated('R11.8', inst, where, 'assignment after the cap is neither a lowering nor the forced bandwidth nor the CELT medium->wide exception; facts here: %s' %
+                         [T.show_atom(a) for a in atoms][:5], key='raise:%s' % sx.show(n)[:50])
+    # decide_fec receives &st->bandwidth: it may only decrement or restore it
+    if prog.has_fn('decide_fec'):
+        g = prog.fn('decide_fec')
+        pi = g.param_index('bandwidth')
+        bad = []
+        nst = 0
+        for n in g.all_nodes():
+            if n[0] in ('assign', 'cassign', 'inc'):
+                lv = sx.strip_paren(n[1] if n[0] == 'assign' else (n[2] if n[0] == 'cassign' else n[3]))
+                if sx.kind(lv) == 'deref' and sx.key(sx.strip(lv[1])) == ('param', pi):
+                    nst += 1
+                    if n[0] == 'inc' and n[1] == '--':
+                        continue
+                    if n[0] == 'assign' and sx.kind(sx.strip(n[2])) == 'local':
+                        lid = sx.strip(n[2])[2]
+                        defs = [m for m in g.all_nodes() if (m[0] == 'assign' and sx.kind(m[1]) == 'local' and m[1][2] == lid)] + \
+                               [d for m in g.all_nodes() if m[0] == 'decls' for d in m[1] if d[0] == 'decl' and d[2] == lid and d[3] is not None]
+                        if len(defs) == 1 and sx.key(sx.strip(defs[0][2] if defs[0][0] == 'assign' else defs[0][3])) == ('deref', ('param', pi)):
+                            continue
+                    bad.append(sx.show(n)[:50])
+        if bad:
+            rep.violated('R11.8', '%s:decide_fec only lowers or restores *bandwidth' % prog.config, g.where(), 'stores: %s' % bad, key='decide_fec')
+        elif nst:
+            rep.holds('R11.8', '%s:decide_fec only lowers or restores *bandwidth' % prog.config, g.where(), '%d stores: decrement or restore of the entry value' % nst)
+    # nothing else takes the address of the field
+    esc = [n for n in f.all_nodes() if n[0] == 'addr' and _is_bw(n[1])]
+    callers = [c for c in f.calls() if any(sx.kind(sx.strip(a)) == 'addr' and _is_bw(sx.strip(a)[1]) for a in c[2])]
+    if len(esc) != len(callers) or any(sx.callee_name(c) != 'decide_fec' for c in callers):
+        rep.violated('R11.8', '%s:&st->bandwidth is passed to decide_fec only' % prog.config, f.where(), '%d address-of, callees %s' % (len(esc), [sx.callee_name(c) for c in callers]), key='bw-escape')
+    else:
+        rep.holds('R11.8', '%s:&st->bandwidth is passed to decide_fec only' % prog.config, f.where(), None)
+    if n_after < 6:
+        rep.unresolved('R11.8', 'only %d assignments to st->bandwidth after the cap (expected the Nyquist / hybrid / detected-bandwidth steps)' % n_after)
+
+
+def T_minmax(e):
+    """('min'|'max', a, b) for the IMIN/IMAX/silk_min/silk_max expansion  (a) < (b) ? (a) : (b)"""
+    e = sx.strip(e)
+    if sx.kind(e) != 'cond':
+        return None
+    c = sx.strip(e[1])
+    if sx.kind(c) != 'bin' or c[1] not in ('<', '>', '<=', '>='):
+        return None
+    a, b = sx.key(sx.strip(c[2])), sx.key(sx.strip(c[3]))
+    x, y = sx.key(sx.strip(e[2])), sx.key(sx.strip(e[3]))
+    if (x, y) == (a, b):
+        return ('min' if c[1] in ('<', '<=') else 'max', sx.strip(c[2]), sx.strip(c[3]))
+    if (x, y) == (b, a):
+        return ('max' if c[1] in ('<', '<=') else 'min', sx.strip(c[2]), sx.strip(c[3]))
+    return None
+
+
 # ------------------------------------------------------------ R11.9
 
 def r11_9(rep, prog, arms_by_disp):
@@ -606,4 +759,5 @@ def check(rep, prog, tier):
         arms_by_disp[fname] = analyse_dispatcher(rep, prog, fname)
     r11_6(rep, prog)
     r11_7(rep, prog, arms_by_disp)
+    r11_8(rep, prog)
     r11_9(rep, prog, arms_by_disp)
